@@ -63,6 +63,7 @@ type Contract struct {
 	HoldsLock  bool // obligation: no Unlock call outside defer
 	ChanState  bool // obligations: no send on / close of a closed channel, over ghost(closed, ch)
 	Criticals  [][2]string // critical A .. B: no mutex release on a path from the call of A to the call of B
+	Exhaustive []int       // loop ordinals that must be left only through their header
 	RecvNonNil bool
 	Params     []string // optional explicit parameter names (for externals)
 	Results    []string
@@ -237,6 +238,15 @@ func ParseSpecFile(path string, pkgName string) (*SpecFile, error) {
 				continue
 			}
 			k, r3 := splitWord(r2)
+			if k == "exhaustive" {
+				// loop N exhaustive: the loop is left only through its header condition
+				// (no break, return or goto out of its body): it visits everything its
+				// header enumerates
+				if cur != nil {
+					cur.Exhaustive = append(cur.Exhaustive, idx)
+				}
+				continue
+			}
 			pend = &pending{kind: "loop-" + k, loop: idx, text: r3, line: ln}
 		case "requires", "ensures", "assume", "modifies", "panics_if", "decreases", "witness", "preserves", "assert", "reads":
 			pend = &pending{kind: word, text: rest, line: ln}
